@@ -292,10 +292,8 @@ def run_slow(case):
             viol.append({"mechanism": "init-failed-on-plain-console", "detail": {}})
             return
         subs = []
-        # (all of them busy one after the other must stay well inside the 330 s after which
-        # an unanswered heartbeat - its response is queued behind them - resets the link)
-        n_ent = sum(2 + len(ac.zones) for ac in w.at.air_conditioners)
-        slow = min(case["delay"], 120.0 / max(1, n_ent * (case["n"] + 1)))
+        slow = case["delay"]
+        t_init = loop.time()
         for ac in w.at.air_conditioners:
             for attach in (ac.subscribe, ac.subscribe_ac_state):
                 s = H.Sub(log, f"slow-ac{ac.ac_id}", hashv=rnd.getrandbits(20))
@@ -350,6 +348,14 @@ def run_slow(case):
         # let every callback finish (each frame can cost several delays in a row)
         await asyncio.sleep(slow * (len(subs) + 2) * (case["n"] + 1) + 30.0)
         await quiesce(loop)
+        resets = [t for _, t, k, d in log.events if k == "NET.close" and not d["fault"]]
+        if resets and resets[0] - t_init >= 329.0:
+            # all of them busy one after the other for so long that the (answered) heartbeat
+            # of t+300 s was still queued behind them 30 s later: the link is reset as
+            # documented and what was unread on it is lost - outside what is judged here
+            obs["undecided_busy_beyond_the_heartbeat_deadline"] = 1
+            await w.at.shutdown()
+            return
         w.feed()
         dd = RM.diff(w.model.expected(), H.snapshot(w.at))
         obs["slow_subscriber_sessions"] = 1
